@@ -12,8 +12,11 @@ package logic
 //	    consensus parameters that introduced the AVM version and under vFuture.
 //	(b) for every entry of the opcode table (every opcode, and every version at which its
 //	    encoding/behaviour was redefined), at the first and last version of its validity:
-//	    all immediates from a boundary set (0, 1, max, first invalid, truncated/overflowing
-//	    varints, oversized constants) x all operand tuples of the stack-value grid
+//	    all immediates from a boundary set (0, 1, max, first invalid, every field index, truncated/
+//	    overflowing varints, oversized constants; for every varint-carrying immediate — v13+ branch
+//	    offsets, pushint, pushbytes length, int/bytes list counts, elements and item lengths — the
+//	    position dependent raw varints 2^63-1-j, 2^63+j, 2^64-1-j, MaxInt64-pc-j and negations for
+//	    j in 0..len(program)+3 (+14 for branches), non-minimal 10-byte and overlong 11-byte encodings) x all operand tuples of the stack-value grid
 //	    {uint 0,1,2^64-1 (+ the two existing application ids 888, 1056); bytes "",1,8,32,64,4095,
 //	    4096 B} at its arity (full product up to arity 4 — thorough: 5 —, reduced grid + star above),
 //	    plus every single type-incorrect position; in six contexts (plain; constant blocks + four
@@ -60,6 +63,10 @@ package logic
 //   6. eval.go checkStep(): immediate-size test disabled (CheckSignature/CheckContract recover a panic)
 //   7. eval.go remainingBudget(): pooled application budget reported one too high (a loop runs one
 //      cost unit past the budget: needs ~11200 steps)
+//   8. (independently seeded, /verif/seeded/C31-A) branchTargetVarint tests only one side of the
+//      target range per branch direction: a forward offset within ~len(program) of MaxInt64 wraps
+//      negative and Check/Eval recover an index panic — found by the position dependent raw
+//      varint immediates MaxInt64-pc-j of part (b).
 // An off-by-one in opBytesZero's own length test is NOT property-breaking (step()'s generic check
 // still fails the program) and is therefore not used as a mutant.
 
@@ -973,11 +980,96 @@ func c31immAlts(im immediate) [][]byte {
 	return [][]byte{{0}}
 }
 
+// c31uv / c31sv: raw minimal encodings of an unsigned / signed (zigzag) varint.
+func c31uv(x uint64) []byte { return c31uvarint(nil, x) }
+func c31sv(x int64) []byte {
+	var tmp [binary.MaxVarintLen64]byte
+	return append([]byte{}, tmp[:binary.PutVarint(tmp[:], x)]...)
+}
+
+// c31wide: the non-minimal 10-byte encoding of a small unsigned varint value (< 128).
+func c31wide(x byte) []byte { return append(append([]byte{x | 0x80}, c31rep(0x80, 8)...), 0x00) }
+
+// c31hasVarint: the immediate is (or starts with) a varint whose value the evaluator uses in
+// position arithmetic.
+func c31hasVarint(im immediate) bool {
+	switch im.kind {
+	case immVarintLabel, immInt, immBytes, immInts, immBytess:
+		return true
+	}
+	return false
+}
+
+// c31varintAlts: boundary varints as RAW BYTES for an instruction at pc of a program of about
+// plen bytes (they depend on the position: the interesting values are those for which
+// pc + size + value crosses 2^63 or 2^64).
+//   - unsigned (pushint value, pushbytes length, int/bytes list counts, element values, item
+//     lengths): 2^63-1-j, 2^63+j, 2^64-1-j for j in 0..plen+3; non-minimal 10-byte encodings of
+//     0,1,2; 11-byte (overlong) encodings;
+//   - signed branch offsets (v13+ b/bz/bnz/callsub): MaxInt64-pc-j and its negation for
+//     j in 0..plen+14 (covers both sides of the wrap of pc+size+offset), MinInt64+j, MaxInt64-j
+//     for j in 0..3, non-minimal and overlong encodings.
+func c31varintAlts(im immediate, pc, plen int) [][]byte {
+	long0 := append(c31rep(0x80, 10), 0x00)  // 11 bytes, value would be 0
+	longF := append(c31rep(0xff, 10), 0x01)  // 11 bytes, overflows
+	long9 := append(c31rep(0xff, 9), 0x02)   // 10 bytes, overflows 64 bits
+	wides := [][]byte{c31wide(0), c31wide(1), c31wide(2), long0, longF, long9}
+	var uvals []uint64
+	for j := 0; j <= plen+3; j++ {
+		uvals = append(uvals, uint64(math.MaxInt64)-uint64(j), uint64(1)<<63+uint64(j), math.MaxUint64-uint64(j))
+	}
+	var out [][]byte
+	switch im.kind {
+	case immVarintLabel:
+		for j := 0; j <= plen+14; j++ {
+			off := int64(math.MaxInt64) - int64(pc) - int64(j)
+			out = append(out, c31sv(off), c31sv(-off))
+		}
+		for j := int64(0); j <= 3; j++ {
+			out = append(out, c31sv(math.MinInt64+j), c31sv(math.MaxInt64-j))
+		}
+		out = append(out, wides...)
+		out = append(out, append(append([]byte{0x81}, c31rep(0x80, 8)...), 0x00)) // offset -1 in 10 bytes
+	case immInt:
+		for _, v := range uvals {
+			out = append(out, c31uv(v))
+		}
+		out = append(out, wides...)
+	case immBytes:
+		for _, v := range uvals {
+			out = append(out, c31uv(v), append(c31uv(v), 'x', 'y'))
+		}
+		out = append(out, wides...)
+		out = append(out, append(c31wide(1), 'a'))
+	case immInts:
+		for _, v := range uvals {
+			out = append(out, c31uv(v), append([]byte{1}, c31uv(v)...))
+		}
+		out = append(out, wides...)
+		out = append(out, append(c31wide(1), 5), append([]byte{1}, c31wide(1)...), append([]byte{1}, longF...))
+	case immBytess:
+		for _, v := range uvals {
+			out = append(out, c31uv(v), append([]byte{1}, c31uv(v)...), append(append([]byte{1}, c31uv(v)...), 'x'))
+		}
+		out = append(out, wides...)
+		out = append(out, append(c31wide(1), 1, 'a'), append(append([]byte{1}, c31wide(1)...), 'a'), append([]byte{1}, longF...))
+	}
+	return out
+}
+
 // c31immProduct: all combinations of the alternatives of the opcode's immediates.
 func c31immProduct(s *OpSpec, perImm int) [][]byte {
+	return c31immProductAt(s, perImm, -1, 0)
+}
+
+// c31immProductAt additionally includes the position dependent varint boundaries when pc >= 0.
+func c31immProductAt(s *OpSpec, perImm int, pc, plen int) [][]byte {
 	out := [][]byte{{}}
 	for _, im := range s.Immediates {
 		alts := c31immAlts(im)
+		if pc >= 0 && c31hasVarint(im) {
+			alts = append(append([][]byte{}, alts...), c31varintAlts(im, pc, plen)...)
+		}
 		if perImm > 0 && len(alts) > perImm {
 			alts = alts[:perImm]
 		}
@@ -1226,7 +1318,11 @@ func c31partB(r *ve.Run) {
 	r.ParallelFor(len(tasks), func(i int) {
 		tk := tasks[i]
 		s := tk.e.spec
-		imms := c31immProduct(s, 0)
+		staticImms := c31immProduct(s, 0)
+		dynamic := false
+		for _, im := range s.Immediates {
+			dynamic = dynamic || c31hasVarint(im)
+		}
 		tuples := c31tuples(c31argTypes(s))
 		k := c31key{mode: tk.mode, proto: c31future}
 		// the largest budget a transaction group can pool
@@ -1238,17 +1334,25 @@ func c31partB(r *ve.Run) {
 		var cnt [3]int64
 		var okN int64
 		n := 0
-		for _, imm := range imms {
-			for _, tu := range tuples {
-				pb := c31pb{version: tk.version}
-				epi := c31prologue(&pb, tk.ctx)
-				for _, v := range tu {
-					pb.push(v)
-				}
-				oppc := len(pb.header()) + len(pb.body)
-				pb.raw(c31encode(s, imm)...)
-				pb.raw(epi...)
-				res := c31eval("b", k, pb.program(), budget, oppc)
+		for _, tu := range tuples {
+			pre := c31pb{version: tk.version}
+			epi := c31prologue(&pre, tk.ctx)
+			for _, v := range tu {
+				pre.push(v)
+			}
+			prefix := pre.program()
+			oppc := len(prefix)
+			imms := staticImms
+			if dynamic {
+				// the varint boundaries depend on where the instruction sits
+				imms = c31immProductAt(s, 0, oppc, oppc+len(c31encode(s, nil))+11+len(epi))
+			}
+			for _, imm := range imms {
+				prog := make([]byte, 0, oppc+len(imm)+8)
+				prog = append(prog, prefix...)
+				prog = append(prog, c31encode(s, imm)...)
+				prog = append(prog, epi...)
+				res := c31eval("b", k, prog, budget, oppc)
 				cnt[res.kind]++
 				if res.tr.watchOK > 0 {
 					okN++
